@@ -185,6 +185,20 @@ theorem bridge_get_units_shape :
     Gen.C09.unreporting_policy = ["handle_unreporting == 'drop' : data = data.dropna(axis=0, how='any', subset=result_cols)", "handle_unreporting == 'zero' : indices_with_null_val = data[result_cols].isna().any(axis=1) ; data.update(data[result_cols].fillna(value=0)) ; data.loc[indices_with_null_val, 'percent_expected_vote'] = 0"] :=
   ⟨rfl, rfl, rfl, rfl, rfl, rfl, rfl, rfl, rfl, rfl, rfl⟩
 
+/-- a feed row without an expected vote figure is taken at 0 (`Feed.pev = none`, `joinRow` uses `getD 0`): the statement of
+    `CombinedDataHandler.__init__` that does it, after the merge and the unreporting policy (fix F-20) -/
+theorem bridge_missing_expected_vote :
+    Gen.C09.missing_expected_vote = ["'percent_expected_vote' in data.columns : data['percent_expected_vote'] = data['percent_expected_vote'].fillna(0)"] := rfl
+
+theorem joinRow_missing_pev (p : Policy) (n : ℕ) (b : Base) (feed : List Feed) (f : Feed) (r : Row)
+    (hf : findFeed b feed = some f) (hc : complete f = true) (hp : f.pev = none) (h : joinRow p n b feed = some r) :
+    r.pev = 0 := by
+  unfold joinRow at h
+  rw [hf] at h
+  simp only [hc, if_true, Option.some.injEq] at h
+  subst h
+  simp [hp]
+
 /-- the derived quantities of the `Estimandizer` as written in the source -/
 theorem bridge_estimandizer (dem gop : ℚ) :
     margin dem gop = Gen.C09.est_margin dem gop ∧ twoParty dem gop = Gen.C09.est_weights dem gop ∧
